@@ -44,6 +44,12 @@ def subsets (u : List Nat) : List (List Nat) :=
   (List.range (2 ^ u.length)).map fun mask =>
     (u.zipIdx.filter fun p => (mask >>> p.2) % 2 == 1).map (·.1)
 
+/-- node lists that name a node more than once -/
+def duplists (u : List Nat) : List (List Nat) :=
+  match u with
+  | [] => []
+  | x :: _ => [[x, x], u ++ [x], u.reverse ++ u]
+
 /-- The read API as a record, so that one printer serves model and specification. -/
 structure QApi where
   directed : Bool
@@ -325,12 +331,14 @@ def pDerived (f : Store → QApi) : Outcome Store → String
 
 def Store.derivedFields (s : Store) (u : List Nat) (w : W) : List (String × String) :=
   ((subsets u).zipIdx.map fun p => (s!"sub{p.2}", pDerived Store.api (s.getSubgraph p.1))) ++
+  ((duplists u).zipIdx.map fun p => (s!"subdup{p.2}", pDerived Store.api (s.getSubgraph p.1))) ++
   [ ("rev", pDerived Store.api s.reverse),
     ("setw", pDerived Store.api (s.setAllEdgeWeights w)),
     ("single", pDerived Store.api s.toSingleEdges) ]
 
 def Abs.derivedFields (sp : Specs) (a : Abs) (u : List Nat) (w : W) : List (String × String) :=
   ((subsets u).zipIdx.map fun p => (s!"sub{p.2}", (Abs.api sp (a.subgraph p.1)).compact)) ++
+  ((duplists u).zipIdx.map fun p => (s!"subdup{p.2}", (Abs.api sp (a.subgraph p.1)).compact)) ++
   [ ("rev", if sp.directed then (Abs.api sp a.reverse).compact else "E12"),
     ("setw", (Abs.api sp (a.setWeights w)).compact),
     ("single", if sp.multi then (Abs.api { sp with multi := false } a.toSingle).compact else "E12") ]
